@@ -113,7 +113,8 @@ def c05(rec):
                 out.append(('held-identity-also-available', 'identity %d of group %d is held by %d and offered as free'
                             % (a['identity'], g, aid)))
             if a['server'] is None:
-                why = 'schedule-once-evicted' if (a['once'] and a['evicted']) else 'other'
+                why = ('schedule-once-evicted' if (a['once'] and a['evicted'])
+                       else 'renewal-restore-refused' if a.get('renew') else 'other')
                 out.append(('pending-instance-holds-identity:' + why,
                             'instance %d is not placed but holds identity %d of group %d' % (aid, a['identity'], g)))
         elif a['server'] is not None:
